@@ -95,6 +95,24 @@ theorem reserve_irrelevant_sim {b b' : Builder} (h : Sim b b') (ops : List Op) :
       · rw [h1, h2]
       · rw [h1, h2]; exact ih hsim
 
+/-
+**Assumption A3 (capacity hints; outside the model).** `Builder.step (.reserve n)` is a
+no-op on the output for every `n : Nat`. In Rust `reserve_capacity(n)` adds `n` to
+`additional_capacity` (before the first write) or calls `Vec::reserve(n)` (after it), and
+`write_header` allocates `Vec::with_capacity(16 + addresses.len() + additional_capacity)`.
+`reserve_irrelevant` below (and `reserve_irrelevant_with`) therefore describe the Rust only
+under the assumption that
+
+* the sum of all capacity hints of the history, plus `16 + addresses.len()`, plus the bytes
+  already in the buffer, stays below `isize::MAX` (and below `usize::MAX`, so that
+  `additional_capacity += capacity` does not overflow), and
+* the allocation succeeds.
+
+Otherwise Rust panics with "capacity overflow" (or, with overflow checks, on the addition; or
+aborts on allocation failure) — e.g. `Builder::new(0x21, 0).reserve_capacity(1 << 63).build()`
+panics in every build profile. Such panics are not modelled: `n` is unbounded here, and the
+theorem says nothing about histories that violate A3.
+-/
 /-- Removing every `reserve_capacity` call from a history does not change what is
 built (or whether it is built). -/
 theorem reserve_irrelevant (vc afp : UInt8) (ops : List Op) :
